@@ -23,16 +23,16 @@ def run(ctx):
     ctx.check("C09-R1", "set delegates to send_if_modified", sg == ["return Sender::send_if_modified(self.0,closure:SharedResultSet::{closure#0})"], "SharedResultSet::set changed: %s" % sg, where(f))
     cl = A.fn("wtransport::driver::utils::SharedResultSet::set::{closure#0}")
     rows = [
-        {"name": "empty->store, report modified", "atoms": [r"^Option::is_none\(state\)$"], "events": [r"^store state := Option::Some\(result\)$"], "leaf": r"^return 1$"},
-        {"name": "already set->untouched, not modified", "atoms": [r"^!Option::is_none\(state\)$"], "not_events": [r"^store "], "leaf": r"^return 0$"},
+        {"name": "empty->store, report modified", "atoms": [r"^state fails$"], "events": [r"^store state := Option::Some\(result\)$"], "leaf": r"^return 1$"},
+        {"name": "already set->untouched, not modified", "atoms": [r"^state ok$"], "not_events": [r"^store "], "leaf": r"^return 0$"},
     ]
     match_table(ctx, "C09-R1", cl, walk(cl), rows, "SharedResultSet::set closure")
     g = A.find1(r"^wtransport::driver::utils::SharedResultGet::result::\{closure#0\}$")
     B = r"<Option<T> as Clone>::clone\(Receiver::borrow\(await\(Mutex::lock\(self\.0\)\)\)\)"
     rows = [
         {"name": "set->Some(value)", "atoms": [r"^%s ok$" % B], "leaf": r"^return Option::Some\(ok\(%s\)\)$" % B},
-        {"name": "unset, changed->re-check", "atoms": [r"^%s fails$" % B, r"^!Result::is_err\("], "leaf": r"^continue$"},
-        {"name": "unset, all setters gone->None", "atoms": [r"^%s fails$" % B, r"^Result::is_err\("], "leaf": r"^return Option::None$"},
+        {"name": "unset, changed->re-check", "atoms": [r"^%s fails$" % B, r"^await\(Receiver::changed\(.*\)\) ok$"], "leaf": r"^continue$"},
+        {"name": "unset, all setters gone->None", "atoms": [r"^%s fails$" % B, r"^await\(Receiver::changed\(.*\)\) fails$"], "leaf": r"^return Option::None$"},
     ]
     match_table(ctx, "C09-R1", g, walk(g), rows, "SharedResultGet::result")
 
